@@ -124,16 +124,23 @@ impl Prop for C11Prop {
         let (n1, n2) = (o1.split('\n').count(), o2.split('\n').count());
         if n2 > n1 {
             let pct = (n2 - n1) * 100 / n1.max(1);
+            // does the region where the two results part contain a `//` comment?
+            let l1: Vec<&str> = o1.split('\n').collect();
+            let l2: Vec<&str> = o2.split('\n').collect();
+            let d = l1.iter().zip(&l2).position(|(a, b)| a != b).unwrap_or(0);
+            let near_comment = l1.iter().skip(d).take(3).chain(l2.iter().skip(d).take(4)).any(|l| l.contains("//"));
             return Outcome::Fail(
                 Failure::new(
                     "more-lines-when-wider",
                     format!("wrap_column={w2} gives {n2} lines, wrap_column={w1} only {n1}"),
                 )
+                .fact(if near_comment { "diff-touches-line-comment" } else { "diff-without-line-comment" })
                 .fact(if pct <= 35 { "increase<=35%" } else { "increase>35%" })
                 .facts(&logf),
             );
         }
         if max_line(&o1) <= w1 && max_line(&o2) > w2 {
+            logf.push(if max_line(&o2) - w2 <= 2 { "overflow<=2".into() } else { "overflow>2".into() });
             return Outcome::Fail(
                 Failure::new(
                     "fits-narrow-not-wide",
